@@ -52,19 +52,20 @@ def synthetic_profile(rng, z_max=None, chems=None, n=None, z_top=0.0):
     T = Tb + (Ts - Tb) * np.exp(-z / hT)
     Ss = rng.uniform(32., 35.)
     S = Ss + rng.uniform(0.2, 1.5) * (1. - np.exp(-z / rng.uniform(200., 900.)))
-    cols = [z, T, S]
+    data = np.vstack([z, T, S]).T
     chems = list(chems or [])
-    for _c in chems:
-        c0 = 10 ** rng.uniform(-6, -2)
-        if rng.random() < 0.5:
-            cols.append(c0 * np.exp(-z / rng.uniform(100., 2000.)))
-        else:
-            cols.append(c0 * (0.2 + z / z_max))
-    data = np.vstack(cols).T
     with quiet():
         prf = ambient.Profile(data, ztsp=['z', 'temperature', 'salinity', 'pressure'],
-                              ztsp_units=['m', 'K', 'psu', 'Pa'],
-                              chem_names=chems, chem_units=['kg/m^3'] * len(chems))
+                              ztsp_units=['m', 'K', 'psu', 'Pa'])
+        if chems:
+            cols = [z]
+            for _c in chems:
+                c0 = 10 ** rng.uniform(-6, -2)
+                if rng.random() < 0.5:
+                    cols.append(c0 * np.exp(-z / rng.uniform(100., 2000.)))
+                else:
+                    cols.append(c0 * (0.2 + z / z_max))
+            prf.append(np.vstack(cols).T, ['z'] + chems, ['m'] + ['kg/m^3'] * len(chems))
     return prf
 
 
@@ -207,48 +208,90 @@ def params_args(sp):
 # single bubble model scenarios
 # ---------------------------------------------------------------------------
 
-def sbm_case(rng, profiles):
-    """one seeded single-particle simulation over the quantifier of C05.
-    `profiles` : list of (name, profile, chem names present) to choose from.
+def us_estimate(kind, de):
+    """crude LOWER estimate of the rise velocity (m/s), only used to size scenarios"""
+    drho = 900. if kind == 'gas' else 120.
+    stokes = drho * 9.81 * de ** 2 / (18. * 1.4e-3)
+    return max(1e-4, min(stokes / 4., 0.1 if kind == 'gas' else 0.06))
+
+
+def sbm_case(rng, profiles, rows_cap=500):
+    """one seeded single-particle simulation over the quantifier of C05:
+    gas bubble / liquid drop of 1-4 compounds / inert particle; depth 50-3500 m; de 0.2-20 mm;
+    T0 ambient or up to +30 K; t_hyd 0 or > 0; delta_t 1-1000 s.
+    `profiles` : list of (name, profile) to choose from.  Depth and maximum step are coupled
+    through a crude rise-time estimate so that about `rows_cap` rows are stored at most.
     returns a dict with everything needed to replay the simulation"""
-    name, prf, _chems = rng.choice(profiles)
+    name, prf = rng.choice(profiles)
     kind = rng.choice(['gas', 'gas', 'liquid', 'liquid', 'inert'])
     obj, yk, descr = make_dbm_particle(rng, kind)
+    de = math.exp(rng.uniform(math.log(0.2e-3), math.log(20e-3)))
+    delta_t = rng.choice([1., 10., 100., 1000., math.exp(rng.uniform(0., math.log(1000.)))])
+    us = us_estimate(kind, de)
     zlo = max(50., prf.z_min + 1.)
     zhi = min(3500., prf.z_max - 1.)
-    z0 = math.exp(rng.uniform(math.log(zlo), math.log(zhi)))
-    de = math.exp(rng.uniform(math.log(0.2e-3), math.log(20e-3)))
+    if 1209600. / delta_t > rows_cap:
+        # the 14-day cap alone does not bound the rows: bound the rise time instead
+        zhi = min(zhi, max(zlo, rows_cap * delta_t * us))
+        if zlo / us / delta_t > rows_cap:
+            delta_t = min(1000., zlo / us / rows_cap)
+    z0 = math.exp(rng.uniform(math.log(zlo), math.log(max(zhi, zlo))))
     dT = rng.choice([None, None, rng.uniform(0.3, 30.), rng.uniform(0., 1.)])
     K = rng.choice([1., 1., 0., rng.uniform(0., 10.)])
     K_T = rng.choice([1., 1., 0., rng.uniform(0., 10.)])
     fdis = 10 ** rng.uniform(-9, -1)
     t_hyd = rng.choice([0., 0., rng.uniform(1., 2000.)])
     lag_time = rng.random() < 0.5
-    delta_t = rng.choice([1., 10., 100., 1000., math.exp(rng.uniform(0., math.log(1000.)))])
     x0 = rng.choice([0., rng.uniform(-100., 100.)])
     y0 = rng.choice([0., rng.uniform(-100., 100.)])
     return dict(profile=name, descr=descr, z0=z0, x0=x0, y0=y0, de=de, dT=dT, K=K, K_T=K_T, fdis=fdis,
                 t_hyd=t_hyd, lag_time=lag_time, delta_t=delta_t, obj=obj, yk=yk, prf=prf)
 
 
-def sbm_expected_steps(case):
-    """crude a-priori bound on the number of stored rows (rise at >= 1 cm/s is not guaranteed for
-    small particles: the 14-day cap then ends the run after 1209600/delta_t rows)"""
-    return 1209600. / case['delta_t']
+class BudgetExceeded(Exception):
+    """raised from inside the wrapped profile look-up when a simulation needs more right-hand-side
+    evaluations than the scenario budget (VODE occasionally takes 1e4+ tiny steps)"""
 
 
-def run_sbm(case):
-    """run the REAL single_bubble_model on a case; returns the Model object"""
+def run_sbm(case, budget=None):
+    """run the REAL single_bubble_model on a case; returns the Model object with the extra attributes
+    `_T0_used`, `_k_steps` (number of passes through the loop, parsed from the final progress line the
+    code prints), `_n_reset` (number of heat resets of l.847-850, counted by an instance-level wrapper
+    of profile.get_values: that call is the only one that passes the name as a bare string)"""
+    import re
     from tamoc import single_bubble_model
     prf = case['prf']
-    with quiet():
-        model = single_bubble_model.Model(prf)
-        T0 = None
-        if case['dT'] is not None:
-            Ta = float(prf.get_values(case['z0'], ['temperature'])[0])
-            T0 = Ta + case['dT']
-        model.simulate(case['obj'], np.array([case['x0'], case['y0'], case['z0']]), case['de'],
-                       np.array(case['yk'], dtype=float), T0, case['K'], case['K_T'], case['fdis'],
-                       case['t_hyd'], case['lag_time'], case['delta_t'])
+    buf = io.StringIO()
+    count = [0]
+    orig = prf.get_values
+
+    ncalls = [0]
+
+    def get_values(z, names):
+        if isinstance(names, str) and names == 'temperature':
+            count[0] += 1
+        ncalls[0] += 1
+        if budget is not None and ncalls[0] > 3 * budget:
+            raise BudgetExceeded()
+        return orig(z, names)
+    prf.get_values = get_values
+    try:
+        with warnings.catch_warnings():
+            warnings.simplefilter('ignore')
+            with np.errstate(all='ignore'), contextlib.redirect_stdout(buf):
+                model = single_bubble_model.Model(prf)
+                T0 = None
+                if case['dT'] is not None:
+                    Ta = float(orig(case['z0'], ['temperature'])[0])
+                    T0 = Ta + case['dT']
+                model.simulate(case['obj'], np.array([case['x0'], case['y0'], case['z0']]), case['de'],
+                               np.array(case['yk'], dtype=float), T0, case['K'], case['K_T'], case['fdis'],
+                               case['t_hyd'], case['lag_time'], case['delta_t'])
+    finally:
+        del prf.get_values
     model._T0_used = T0
+    ks = re.findall(r'k: (\d+)', buf.getvalue())
+    model._k_steps = int(ks[-1]) if ks else None
+    model._n_reset = count[0]
+    model._n_rhs = ncalls[0] // 3
     return model
